@@ -1890,6 +1890,7 @@ bn_import_be_bin(bn_p bn, const uint8_t *buf, size_t buf_size) {
 	BN_PREFETCH_BN_DATA(bn);
 	BN_RET_ON_ERR(bn_digits_import_be_bin(bn->num, bn->count, buf, buf_size,
 	    &digits));
+	bn->digits = 0; /* Old value is gone: do not count its high digits. */
 	bn_update_digits__int(bn, digits);
 	return (0);
 }
@@ -1912,6 +1913,7 @@ bn_import_le_bin(bn_p bn, const uint8_t *buf, size_t buf_size) {
 	BN_POINTER_CHK_EINVAL(bn);
 	BN_RET_ON_ERR(bn_digits_import_le_bin(bn->num, bn->count, buf, buf_size,
 	    &digits));
+	bn->digits = 0; /* Old value is gone: do not count its high digits. */
 	bn_update_digits__int(bn, digits);
 	return (0);
 }
